@@ -71,6 +71,10 @@ register("C05", "fault_enumeration", "E4 device", "exhaustive enumeration of dam
          "Every truncation and bit flip of the base archives, section splices, every single-token mutation (and section drop/dup/swap) of ten reference-written headers with CRCs re-sealed, missing/wrong passwords; on every input that opens, every call sequence of length <= 2 (thorough 3) over 7 calls on one session. Oracle: per-call time budget, no MemoryError under baseline + 1 GiB, worker process alive (a crash under the limit is re-judged without the limit by peak RSS).",
          "LZMA/LZMA2/PPMd dictionary-size properties are not mutated (a large dictionary is a legal declaration). Budgets are >= 1000x the normal cost.", "DESIGN.md section 5 C05")
 
+register("C06", "exploration", "E1 explore", "deviation-bounded exhaustive enumeration of (logical archive x physical layout) written by an independent writer and read by the real reader",
+         "Every ordered member list of <= 3 (thorough 4, selected 5) entries over 5 kinds under every single layout deviation (and every pair for richer lists) over folder compositions, 18 chains, NumUnpackStream, CRC placement, packed CRCs, pack gaps, kDummy, EmptyFile, all-defined shortcuts, 6 header encodings, AES property shapes, undefined metadata, trailing bytes; plus all third-party fixtures. py7zr's names, kinds, sizes, times, attributes, bytes and on-disk kinds must equal the logical archive.",
+         "ref7z self-checks every archive it writes; reverse coder order is deliberately not part of the layout space (not named by the property, no writer emits it).", "DESIGN.md section 5 C06")
+
 NOT_YET = {}
 
 
